@@ -26,6 +26,8 @@ mod point;
 mod range;
 mod select;
 mod truncate;
+#[cfg(feature = "verif")]
+pub mod verif;
 
 #[cfg(test)]
 mod tests;
@@ -105,6 +107,9 @@ impl Composer {
     /// Allocate a witness value into the composer and return its index.
     fn append_witness_internal(&mut self, witness: BlsScalar) -> Witness {
         let n = self.witnesses.len();
+
+        #[cfg(feature = "verif")]
+        let witness = verif::scripted_witness(n, witness);
 
         // Get a new Witness from the permutation
         self.perm.new_witness();
